@@ -728,8 +728,14 @@ def _mix(s, p):
   return m
 
 
+def _mix_start(t):
+  """Start sample of an event due at cumulative time t: the nearest sample (an exact half: the earlier)."""
+  import math
+  return max(int(math.ceil(t - .5)), 0)
+
+
 def _mix_need(k, p, f):
-  start = sum(p["ev"][:p["pos"] + 1])
+  start = _mix_start(sum(p["ev"][:p["pos"] + 1]))
   return max(0, k - start)
 
 
@@ -737,10 +743,11 @@ _MIXEXT = lambda p: bool(p.get("keep")) or any(i != p.get("pos") and i % 2 == 0 
 R("streamix", _mix, need=_mix_need, fam="mixer", extends=_MIXEXT,
   dom={"ev": [(0,), (3,), (0, 2), (2, 0, 1), (1, 1, 1, 1), (0, 0, 9)], "pos": [0], "keep": [False, True]})
 R("streamix:later", _mix, need=_mix_need, fam="mixer", extends=_MIXEXT,
-  dom={"ev": [(0, 2), (2, 0, 1), (1, 1, 1, 1), (0, 0, 9), (5, 5)], "pos": [1], "keep": [False, True]})
+  dom={"ev": [(0, 2), (2, 0, 1), (1, 1, 1, 1), (0, 0, 9), (5, 5), (.25, 2.5), (2.625, 2.625), (.75, .75)],
+       "pos": [1], "keep": [False, True]})
 R("streamix:last", lambda s, p: _mix(s, dict(p, pos=len(p["ev"]) - 1)),
-  need=lambda k, p, f: max(0, k - sum(p["ev"])), fam="mixer", extends=lambda p: True,
-  dom={"ev": [(2, 0, 1), (1, 1, 1, 1), (0, 0, 9)], "keep": [False]})
+  need=lambda k, p, f: max(0, k - _mix_start(sum(p["ev"]))), fam="mixer", extends=lambda p: True,
+  dom={"ev": [(2, 0, 1), (1, 1, 1, 1), (0, 0, 9), (.25, 2.375, 2.375), (2.625, 2.625, 2.625)], "keep": [False]})
 R("streamix:Stream-event", lambda s, p: (lambda m: (m.add(p["d"], S(s) * 2), m)[1])(Streamix()),
   need=lambda k, p, f: max(0, k - p["d"]), fam="mixer", dom={"d": [0, 1, 4]})
 R("streamix:two-from-tee", lambda s, p: (lambda m, t: (m.add(0, t[0]), m.add(p["d"], t[1]), m)[2])(Streamix(zero=0), lit.tee(S(s))),
